@@ -82,8 +82,8 @@ def main():
         for m in ms:
             print(m["pid"], m["name"])
         return 0
-    base = "/tmp/verif_mutants"
-    os.makedirs(base, exist_ok=True)
+    os.makedirs("/tmp/verif_mutants", exist_ok=True)
+    base = tempfile.mkdtemp(prefix="run%d_" % os.getpid(), dir="/tmp/verif_mutants")   # private: instances may run concurrently
     bad = 0
     with ThreadPoolExecutor(max_workers=a.jobs) as ex:
         for m, status, detail, dt in ex.map(lambda m: run_one(m, a.tier, base), ms):
